@@ -3,6 +3,7 @@ import AFDriver.C03
 import AFModel.FloatOps
 import AFModel.Fitness
 import AFModel.SearchTable
+import AFModel.LogPrior
 import AFModel.Generated.C04
 
 open Lean (Json)
@@ -42,8 +43,25 @@ def handleC04Table : Json :=
   Json.mkObj [("rows", Json.arr ((Generated.C04.searchRows.map jsonOfRow).toArray)),
     ("default", jsonOfRow Generated.C04.defaultRow)]
 
+/-- `prior_table`: what `log_prior_from_value` reads from each prior, keyed by prior id (the order of
+the entries is the order of a tree walk, not the parameter order) -/
+def parsePriorTable (j : Json) : Except String (List (Nat × PriorD Float)) := do
+  (← getArr j "prior_table").toList.mapM fun p => do
+    let id ← getNat p "id"
+    let kind ← getStr p "kind"
+    pure (id, { kind := PriorKind.ofString kind, mean := (getFloat p "mean").toOption.getD 0.0,
+                sigma := (getFloat p "sigma").toOption.getD 1.0 })
+
 def handleC04 (j : Json) : Except String Json := do
   if (getStr j "kind").toOption == some "table" then return handleC04Table
+  if (getStr j "kind").toOption == some "logprior" then
+    -- `model.log_prior_list_from_vector(v)` for each vector: the terms, their sum, the ids in parameter order
+    let t := (← parseNode (← j.getObjVal? "comp")).node
+    let tbl ← parsePriorTable j
+    let vs ← (← getArr j "vectors").toList.mapM vecOfJson
+    return Json.mkObj [("order", Json.arr ((uniqueIds t).map (fun (n : Nat) => (n : Json))).toArray),
+      ("terms", Json.arr (vs.map (fun v => jsonOfVec (logPriorList floatLp tbl t v))).toArray),
+      ("sums", jsonOfVec (vs.map (fun v => logPriorSum floatFom floatLp tbl t v)))]
   let parsed ← parseNode (← j.getObjVal? "comp")
   let t := parsed.node
   let lims ← parseLims (← j.getObjVal? "lims")
@@ -52,11 +70,10 @@ def handleC04 (j : Json) : Except String Json := do
   let cfg : FitCfg Float := {
     fomIsLL := (← getBool cfgj "fom_is_ll"), convertChi := (← getBool cfgj "chi"),
     storeHistory := (← getBool cfgj "history"), resample := (← getFloat cfgj "resample") }
-  let priors ← (← getArr j "priors").toList.mapM fun p => do
-    let kind ← getStr p "kind"
-    pure (kind, (getFloat p "mean").toOption.getD 0.0, (getFloat p "sigma").toOption.getD 1.0)
-  let lp : List Float → List Float := fun v =>
-    (priors.zip v).map (fun ((kind, mean, sigma), x) => logPriorFloat kind mean sigma x)
+  -- the log-prior terms are computed by the model from the composition tree (parameter order) and the
+  -- per-prior descriptions; `priors` (descriptions already in parameter order) is no longer read
+  let tbl ← parsePriorTable j
+  let lp : List Float → List Float := logPriorList floatLp tbl t
   let g : List Float → Except GateErr (Inst Float) := fun v => gate floatOps t lims asserts v false
   let calls ← (← getArr j "calls").toList.mapM fun c => do
     let v ← vecOfJson (← c.getObjVal? "v")
